@@ -882,3 +882,45 @@ pub fn ikey_separator_raw(a: (&[u8], u64, bool), b: (&[u8], u64, bool)) -> Vec<u
     let kb = InternalKey::new(b.0.to_vec(), b.1, op(b.2));
     BinarySeparable::find_shortest_separator(&ka, &kb)
 }
+
+/// Cursor over a table built with `table_build`: one of "first", "last", "seek", "next", "prev" per step.
+/// Returns the (user key, sequence, first value byte) under the cursor after every step (None = invalid).
+pub fn table_iter_cursor(options: &DbOptions, ops: &[&str], target: (&[u8], u64)) -> Option<Vec<Option<(Vec<u8>, u64, u8)>>> {
+    let path = crate::file_names::FileNameHandler::new(options.db_path().to_string()).get_table_file_path(1);
+    let file = options.filesystem_provider().open_file(&path).ok()?;
+    let table = Arc::new(Table::open(options.clone(), file).ok()?);
+    let mut it = Table::iter_with(Arc::clone(&table), ReadOptions { fill_cache: false, snapshot: None });
+    let mut out = vec![];
+    for op in ops {
+        match *op {
+            "first" => {
+                let _ = it.seek_to_first();
+            }
+            "last" => {
+                let _ = it.seek_to_last();
+            }
+            "seek" => {
+                let _ = it.seek(&InternalKey::new_for_seeking(target.0.to_vec(), target.1));
+            }
+            "next" => {
+                if !it.is_valid() {
+                    break;
+                }
+                it.next();
+            }
+            "prev" => {
+                if !it.is_valid() {
+                    break;
+                }
+                it.prev();
+            }
+            _ => return None,
+        }
+        out.push(if it.is_valid() {
+            it.current().map(|(k, v)| (k.get_user_key().to_vec(), k.get_sequence_number(), v[0]))
+        } else {
+            None
+        });
+    }
+    Some(out)
+}
